@@ -1,4 +1,4 @@
-"""C25 — DNS wire encoding round-trips and decoding is total (RFC 1035 §3.1, §4.1)."""
+"""C25 — DNS wire encoding round-trips and decoding is total (RFC 1035 §3.1, §4.1, §4.1.4)."""
 from pyvc.api import *
 
 CLAIM = "other"
@@ -6,7 +6,7 @@ DN = "mitmproxy.net.dns.domain_names:"
 M = "mitmproxy.dns:DNSMessage"
 
 
-def _struct_error():
+def SE():
     import struct
     return struct.error
 
@@ -16,8 +16,10 @@ def raised_is(out, cls):
     return t is not None and issubclass(t, cls)
 
 
+# ---- the idna codec is library behaviour: uninterpreted in proof mode (axioms in pyvc/libx_dns.py), real natively
+
 def idna_status(vc, b):
-    """0 = bytes.decode('idna') succeeds, 1 = UnicodeDecodeError, 2 = plain UnicodeError (library behaviour)"""
+    """0 = bytes.decode('idna') succeeds, 1 = UnicodeDecodeError, 2 = plain UnicodeError"""
     if vc.mode == "native":
         try:
             bytes(b).decode("idna")
@@ -62,63 +64,167 @@ def join_dots(parts):
     return r if r is not None else ""
 
 
-def no_dot(vc, s):
-    return Not(contains(s, "."))
+def dotfree_label(vc, name):
+    """a symbolic string without '.' (natively: taken from the model; the assumption is checked)"""
+    l = vc.sym_str(name)
+    if vc.mode == "native":
+        vc.assume("." not in l)
+    else:
+        from pyvc import libx_dns
+        libx_dns.assume_sep_free(vc, l, ".")
+    return l
 
 
-def walk_labels(vc, buf, pos, maxlabels, allow_pointer=False):
-    """Reference reading of a label sequence (RFC 1035 §3.1/§4.1.4) starting at pos. Returns (kind, labels, pos, K) with kind in
-    'error' | 'end' (zero octet read; pos is after it) | 'pointer' (pos is at the pointer) | 'kf' (idna UnicodeError) ;
-    returns None when more than maxlabels labels precede the end (outside the explored bound)."""
-    L = len_(buf)
-    labels = []
-    for _ in range(maxlabels + 1):
-        if vc.branch(pos >= L):
-            return "error", labels, pos
-        size = code_at(buf, pos)
-        if vc.branch(size >= 192):
-            if not allow_pointer:
-                return "error", labels, pos
-            return "pointer", labels, pos
-        if vc.branch(size >= 64):
-            return "error", labels, pos
-        if vc.branch(size == 0):
-            return "end", labels, pos + 1
-        if vc.branch(pos + 1 + size > L):
-            return "error", labels, pos
-        raw = buf[pos + 1:pos + 1 + size]
-        st = idna_status(vc, raw)
-        if vc.branch(st == 2):
-            return "kf", labels, pos
-        if vc.branch(st == 1):
-            return "error", labels, pos
-        labels.append(idna_dec(vc, raw))
-        pos = pos + 1 + size
-    return None
+def raise_(vc, cls, msg="x"):
+    if vc.mode == "native":
+        raise cls(msg)
+    vc.it.raise_(cls, msg)
 
 
-@scenario("name.unpack_from", functions=[DN + "unpack_from", DN + "_unpack_label_into"], max_unroll=4)
-def s_unpack_from(vc):
-    """Uncompressed name at an offset: labels joined with '.', returned offset is just after the zero octet; a pointer
-    octet, a truncated or oversized label is a parse error. (Loop unrolled: names of <= 3 labels.)"""
+def ret_(vc, v):
+    return v if vc.mode == "native" else lift(v)
+
+
+def code_or(buf, pos):
+    """byte at pos, or -1 outside the buffer (total in both modes)"""
+    if is_sym(buf) or is_sym(pos):
+        return code_at(buf, pos)
+    return buf[pos] if 0 <= pos < len(buf) else -1
+
+
+def append_(vc, lst, x):
+    if vc.mode == "native":
+        lst.append(x)
+    else:
+        lst.items.append(lift(x))
+
+
+# =============================================================================================
+# names: label step, loops over the step, pack, round trip
+
+@scenario("label.unpack", functions=[DN + "_unpack_label_into"])
+def s_label(vc):
+    """RFC 1035 §3.1: a label is one length octet (0..63) followed by that many octets; 0 terminates the name."""
     buf = vc.sym_bytes("buf")
     off = vc.sym_int("off", lo=0)
-    out = vc.call(DN + "unpack_from", buf, off)
-    w = walk_labels(vc, buf, off, 3)
-    if w is None:
+    pre = vc.case("labels_before", [0, 1])
+    old = [vc.sym_str(f"l{i}") for i in range(pre)]
+    labels = vc.list(list(old))
+    out = vc.call(DN + "_unpack_label_into", labels, buf, off)
+    L = len_(buf)
+    if vc.branch(off >= L):
+        vc.ensure("truncated.length_octet", raised_is(out, SE()))
         return
-    kind, labels, pos = w
-    if kind == "kf":
-        vc.ensure_kf("total.only_parse_error", Or(out.ok, raised_is(out, _struct_error())), "KF-C25-1", True)
+    size = code_at(buf, off)
+    if vc.branch(size >= 64):
+        vc.ensure("oversized_or_pointer.rejected", raised_is(out, SE()))
         return
-    vc.ensure("total.only_parse_error", Or(out.ok, raised_is(out, _struct_error())))
-    if kind == "error":
-        vc.ensure("malformed.parse_error", raised_is(out, _struct_error()))
+    if vc.branch(size == 0):
+        vc.ensure("root.ok", out.ok)
+        if out.ok:
+            vc.ensure("root.consumes_one", out.result == 1)
+            vc.ensure("root.labels_unchanged", len_(labels) == pre)
         return
-    vc.ensure("wellformed.ok", out.ok)
+    if vc.branch(off + 1 + size > L):
+        vc.ensure("truncated.label", raised_is(out, SE()))
+        return
+    raw = buf[off + 1:off + 1 + size]
+    st = idna_status(vc, raw)
+    # totality: only a parse error may escape.  Known finding: a plain UnicodeError of the idna codec is not caught.
+    vc.ensure_kf("total.only_parse_error", Or(out.ok, raised_is(out, SE())), "KF-C25-1", st == 2)
+    if vc.branch(st == 0):
+        vc.ensure("label.ok", out.ok)
+        if out.ok:
+            vc.ensure("label.consumed", out.result == 1 + size)
+            vc.ensure("label.appended_once", len_(labels) == pre + 1)
+            if len_(labels) == pre + 1:
+                vc.ensure("label.text", labels[pre] == idna_dec(vc, raw))
+                for i in range(pre):
+                    vc.ensure(f"label.frame[{i}]", labels[i] == old[i])
+    elif vc.branch(st == 1):
+        vc.ensure("undecodable.parse_error", raised_is(out, SE()))
+    # progress (termination of the label loops): a successful call consumes >= 1 octet and stays inside the buffer
     if out.ok:
-        vc.ensure("wellformed.name", out.result[0] == join_dots(labels))
-        vc.ensure("wellformed.end_offset", out.result[1] == pos)
+        vc.ensure("progress.ge_1", out.result >= 1)
+        vc.ensure("progress.in_buffer", off + out.result <= L)
+
+
+class StepLog:
+    """Summary of _unpack_label_into = its contract proved in `label.unpack` (over-approximated: whether a non-empty
+    in-range label decodes is a free boolean; the decoded text is a fresh string). Records every call."""
+
+    def __init__(self):
+        self.calls = []
+
+    def __call__(self, vc, labels, buffer, offset):
+        i = len(self.calls)
+        rec = dict(labels=labels, buffer=buffer, offset=offset, outcome=None, size=None, label=None)
+        self.calls.append(rec)
+        if vc.branch(Or(offset < 0, offset >= len_(buffer))):
+            rec["outcome"] = "raise"
+            raise_(vc, SE())
+        size = code_at(buffer, offset)
+        rec["size"] = size
+        if vc.branch(size >= 64):
+            rec["outcome"] = "raise"
+            raise_(vc, SE())
+        if vc.branch(size == 0):
+            rec["outcome"] = "end"
+            return ret_(vc, 1)
+        fails = vc.sym_bool(f"step{i}_fails")
+        if vc.branch(Or(fails, offset + 1 + size > len_(buffer))):
+            rec["outcome"] = "raise"
+            raise_(vc, SE())
+        lab = vc.sym_str(f"step{i}_label")
+        rec["label"] = lab
+        rec["outcome"] = "label"
+        append_(vc, labels, lab)
+        return ret_(vc, 1 + size)
+
+
+def check_label_loop(vc, log, out_ok, buf, start, labels_obj=None):
+    """Common part of the two name readers: the label reader is called at consecutive offsets on the same buffer and list."""
+    pos = start
+    labs = []
+    for k, c in enumerate(log.calls):
+        vc.ensure(f"loop.step{k}.offset_is_consecutive", c["offset"] == pos)
+        vc.ensure(f"loop.step{k}.same_buffer_and_list", c["buffer"] is buf and c["labels"] is log.calls[0]["labels"])
+        if c["outcome"] == "label":
+            labs.append(c["label"])
+            pos = pos + 1 + c["size"]
+        elif c["outcome"] == "end":
+            pos = pos + 1
+        if c["outcome"] != "label":
+            vc.ensure(f"loop.step{k}.is_last", k == len(log.calls) - 1)
+    return pos, labs
+
+
+@scenario("name.unpack_from.loop", functions=[DN + "unpack_from"], max_unroll=5)
+def s_unpack_from(vc):
+    """Uncompressed name at an offset (label reader abstracted by its contract): labels are read at consecutive
+    offsets until the zero octet, joined with '.', the returned offset is just after the zero octet; a pointer octet or
+    any failing label is a parse error. (Loop unrolled: names of <= 4 labels.)"""
+    buf = vc.sym_bytes("buf")
+    off = vc.sym_int("off", lo=0)
+    log = StepLog()
+    vc.summary(DN + "_unpack_label_into", log)
+    out = vc.call(DN + "unpack_from", buf, off)
+    pos, labs = check_label_loop(vc, log, out.ok, buf, off)
+    last = log.calls[-1]["outcome"] if log.calls else None
+    vc.ensure("total.only_parse_error", Or(out.ok, raised_is(out, SE())))
+    if last == "end":
+        vc.ensure("wellformed.ok", out.ok)
+        if out.ok:
+            vc.ensure("wellformed.name", out.result[0] == join_dots(labs))
+            vc.ensure("wellformed.end_offset", out.result[1] == pos)
+    elif last == "raise":
+        vc.ensure("bad_label.parse_error", raised_is(out, SE()))
+    else:
+        # stopped without reading a terminator: only legitimate if the next octet is missing or a pointer (unsupported here)
+        vc.ensure("no_terminator.parse_error", raised_is(out, SE()))
+        vc.ensure("no_terminator.justified", Or(pos >= len_(buf), code_or(buf, pos) >= 192))
+    if vc.branch(And(pos < len_(buf), code_or(buf, pos) >= 192)) and last in (None, "label"):
+        vc.ensure("pointer.rejected", raised_is(out, SE()))
 
 
 @scenario("name.unpack", functions=[DN + "unpack"])
@@ -128,65 +234,43 @@ def s_unpack(vc):
     name = vc.sym_str("name")
     end = vc.sym_int("end")
     fails = vc.sym_bool("inner_fails")
-    SE = _struct_error()
 
     def inner(v, buffer, offset):
-        if v.mode == "native":
-            if fails:
-                raise SE("x")
-            return (name, end)
         if v.branch(fails):
-            v.it.raise_(SE, "x")
-        return STuple([name, end])
+            raise_(v, SE())
+        return (name, end) if v.mode == "native" else STuple([name, end])
 
     vc.summary(DN + "unpack_from", inner)
     out = vc.call(DN + "unpack", buf)
     if vc.branch(fails):
-        vc.ensure("inner_error.propagates", raised_is(out, SE))
+        vc.ensure("inner_error.propagates", raised_is(out, SE()))
     elif vc.branch(end == len_(buf)):
         vc.ensure("exact.ok", out.ok)
         if out.ok:
             vc.ensure("exact.name", out.result == name)
     else:
-        vc.ensure("trailing_or_short.parse_error", raised_is(out, SE))
+        vc.ensure("trailing_or_short.parse_error", raised_is(out, SE()))
 
 
-def split_dots(vc, name, maxparts):
-    """name.split('.') with at most maxparts parts (None beyond)."""
-    if vc.mode == "native":
-        p = name.split(".")
-        return p if len(p) <= maxparts else None
-    import z3
-    from pyvc.core import slen, ssub, simp
-    parts = []
-    start = z3.IntVal(0)
-    n = slen(name.t)
-    for _ in range(maxparts):
-        i = z3.IndexOf(name.t, z3.StringVal("."), start)
-        if not vc.branch(SBool(i >= 0)):
-            parts.append(SStr(simp(ssub(name.t, simp(start), simp(n - start)))))
-            return parts
-        parts.append(SStr(simp(ssub(name.t, simp(start), simp(i - start)))))
-        start = simp(i + 1)
-    return None
+def mk_name(vc, k):
+    ls = [dotfree_label(vc, f"l{i}") for i in range(k)]
+    return ls, join_dots(ls)
 
 
-@scenario("name.pack", functions=[DN + "pack"], max_unroll=3)
+@scenario("name.pack", functions=[DN + "pack"])
 def s_pack(vc):
     """RFC 1035 §3.1: a name is the sequence of its labels, each as length octet + octets, ended by a zero octet;
-    the empty name is the root (a single zero octet). Empty labels are refused. (Names of <= 3 labels.)"""
-    name = vc.sym_str("name")
+    the empty name is the root (a single zero octet). Empty labels are refused. (All names with <= 3 dots.)"""
+    k = vc.case("labels", [0, 1, 2, 3, 4])
+    ls, name = mk_name(vc, k)
     out = vc.call(DN + "pack", name)
     if vc.branch(len_(name) == 0):
         vc.ensure("root.ok", out.ok)
         if out.ok:
             vc.ensure("root.bytes", out.result == b"\x00")
         return
-    parts = split_dots(vc, name, 3)
-    if parts is None:
-        return
     exp = b""
-    for p in parts:
+    for p in ls:
         if vc.branch(Not(idna_enc_ok(vc, p))):
             vc.ensure("unencodable.refused", Or(raised_is(out, UnicodeError), raised_is(out, ValueError)))
             return
@@ -208,16 +292,14 @@ def s_pack(vc):
 def s_roundtrip(vc):
     """unpack(pack(n)) == n for IDNA-canonical names (every label l has dec_idna(enc_idna(l)) == l), <= 3 labels."""
     k = vc.case("labels", [0, 1, 2, 3])
-    ls = [vc.sym_str(f"l{i}") for i in range(k)]
+    ls, name = mk_name(vc, k)
     for l in ls:
         e = idna_enc(vc, l)
-        vc.assume(no_dot(vc, l))
         vc.assume(len_(l) > 0)
         vc.assume(idna_enc_ok(vc, l))
         vc.assume(And(len_(e) > 0, len_(e) < 64))
         vc.assume(idna_status(vc, e) == 0)
         vc.assume(idna_dec(vc, e) == l)
-    name = join_dots(ls)
     o1 = vc.call(DN + "pack", name)
     vc.ensure("pack.ok", o1.ok)
     if not o1.ok:
@@ -226,50 +308,3 @@ def s_roundtrip(vc):
     vc.ensure("unpack.ok", o2.ok)
     if o2.ok:
         vc.ensure("same_name", o2.result == name)
-
-
-@scenario("label.unpack", functions=[DN + "_unpack_label_into"])
-def s_label(vc):
-    """RFC 1035 §3.1: a label is one length octet (0..63) followed by that many octets; 0 terminates the name."""
-    buf = vc.sym_bytes("buf")
-    off = vc.sym_int("off", lo=0)
-    pre = vc.case("labels_before", [0, 1])
-    old = [vc.sym_str(f"l{i}") for i in range(pre)]
-    labels = vc.list(list(old))
-    out = vc.call(DN + "_unpack_label_into", labels, buf, off)
-    L = len_(buf)
-    if vc.branch(off >= L):
-        vc.ensure("truncated.length_octet", raised_is(out, _struct_error()))
-        return
-    size = code_at(buf, off)
-    if vc.branch(size >= 64):
-        vc.ensure("oversized_or_pointer.rejected", raised_is(out, _struct_error()))
-        return
-    if vc.branch(size == 0):
-        vc.ensure("root.ok", out.ok)
-        if out.ok:
-            vc.ensure("root.consumes_one", out.result == 1)
-            vc.ensure("root.labels_unchanged", len_(labels) == pre)
-        return
-    if vc.branch(off + 1 + size > L):
-        vc.ensure("truncated.label", raised_is(out, _struct_error()))
-        return
-    raw = buf[off + 1:off + 1 + size]
-    st = idna_status(vc, raw)
-    # totality: only a parse error may escape.  Known finding: a plain UnicodeError of the idna codec is not caught.
-    vc.ensure_kf("total.only_parse_error", Or(out.ok, raised_is(out, _struct_error())), "KF-C25-1", st == 2)
-    if vc.branch(st == 0):
-        vc.ensure("label.ok", out.ok)
-        if out.ok:
-            vc.ensure("label.consumed", out.result == 1 + size)
-            vc.ensure("label.appended_once", len_(labels) == pre + 1)
-            if len_(labels) == pre + 1:
-                vc.ensure("label.text", labels[pre] == idna_dec(vc, raw))
-                for i in range(pre):
-                    vc.ensure(f"label.frame[{i}]", labels[i] == old[i])
-    elif vc.branch(st == 1):
-        vc.ensure("undecodable.parse_error", raised_is(out, _struct_error()))
-    # progress (termination of the label loops): a successful call consumes >= 1 octet and stays inside the buffer
-    if out.ok:
-        vc.ensure("progress.ge_1", out.result >= 1)
-        vc.ensure("progress.in_buffer", off + out.result <= L)
